@@ -18,6 +18,7 @@ func init() {
 			{"ALLOC-PERSIST", ruleAllocPersist},
 			{"NO-PACKAGE-STATE", ruleNoPackageState},
 			{"TXN-SHAPE", ruleTxnShape},
+			{"REPLICATOR-TABLE-EXACT", ruleReplicatorTableExact},
 			{"REPLICATOR-PERSIST", ruleReplicatorPersist},
 			{"KEY-AGREE", ruleKeyAgree},
 		},
